@@ -300,3 +300,51 @@ def check(cx):
             if e.data['op'] != 'Add' or e.data['rhs'] != ('lit', 1) or not ok:
                 r6.violation('process_join|quota-counter-step', 'the quota counter is not incremented by one exactly on '
                              'accepted joins', loc=cx.loc(e.node))
+
+
+def rule_quota(cx, rule):
+    """max_joins governs JOIN (shared: C20 R20.7): the only comparisons with the configured quota are
+       `running counter < max_joins`, the counter starts at the number of channels the user is in and grows by one
+       per accepted join, every admission (add_user / channel creation) is guarded by the comparison when a quota is
+       configured, and exceeding it is answered 405"""
+    prog = cx.prog
+    fn = cx.fn('process_join')
+    w = cx.walk(fn, args=[SELF, CONN, CH_PARAM, KEYS], key='c07')
+    mj = field(CONFIG, 'max_joins')
+    jc_terms = set()
+    for e in w.events:
+        if e.kind == 'assign' and e.data.get('init') and e.data['lhs'][0] == 'mvar' and e.data['rhs'] == ('len', field(ME, 'channels')):
+            jc_terms.add(e.data['lhs'])
+    rule.instance('running join counter initialised to the number of joined channels: %d' % len(jc_terms))
+    if not jc_terms:
+        rule.violation('process_join|quota-counter-init', 'no counter initialised to the number of channels the user is in', loc=fn)
+        return
+    steps = [e for e in w.events if e.kind == 'assignop' and e.data['lhs'] in jc_terms]
+    adds = [e for e in w.events if (is_call(e, 'add_user') and e.data.get('local')) or (is_call(e, 'insert') and e.data['args'][0] == CHANNELS)]
+    rule.instance('counter steps: %d, admission sites: %d' % (len(steps), len(adds)))
+    if not steps or any(e.data['op'] != 'Add' or e.data['rhs'] != ('lit', 1) for e in steps) or \
+            not adds or not equivalent(Or(*[e.pc for e in steps]), Or(*[e.pc for e in adds]))[0]:
+        rule.violation('process_join|quota-counter-step', 'the join counter is not incremented by one exactly on accepted joins', loc=fn)
+    cmp_atoms = set()
+    for e in w.events:
+        for a in atoms(e.pc):
+            if mentions(a, mj) and a != ('is', mj, 'Some'):
+                cmp_atoms.add(a)
+    rule.instance('comparisons with config.max_joins: %d' % len(cmp_atoms))
+    good = [a for a in cmp_atoms if a[0] == 'lt' and a[1] in jc_terms and a[2] == ('some_of', mj)]
+    for a in cmp_atoms:
+        if a not in good:
+            rule.violation('process_join|quota-comparison', 'max_joins is compared with %s, not with the running number of joined channels: '
+                           'one multi-channel JOIN can exceed the configured limit' % show_term(a[1] if len(a) > 1 else a)[:60], loc=fn)
+    if good:
+        q, qf = Atom(('is', mj, 'Some')), Atom(good[0])
+        for e in adds:
+            rule.instance('admission guarded by the quota')
+            if not entails(e.pc, Or(Not(q), qf))[0]:
+                rule.violation('process_join|quota-unguarded', 'a channel can be joined/created beyond the configured max_joins', loc=cx.loc(e.node))
+        e405 = [e for e, r in replies(w) if r['variant'] == 'ErrTooManyChannels405']
+        rule.instance('405 when the quota is exhausted')
+        if not e405 or not equivalent(Or(*[e.pc for e in e405]), And(q, Not(qf)))[0]:
+            rule.violation('process_join|quota-405', 'ERR_TOOMANYCHANNELS is not sent exactly when the configured quota is exhausted', loc=fn)
+    elif not cmp_atoms:
+        rule.violation('process_join|quota-comparison', 'max_joins is never compared with the number of joined channels', loc=fn)
